@@ -434,6 +434,12 @@ func (s *Session) Drain() (ok bool, blockedDump string) {
 			s.Stub.Release(g[0])
 			continue
 		}
+		if activeGate != nil {
+			if hp := activeGate.Parked(); len(hp) > 0 {
+				activeGate.Release(hp[0])
+				continue
+			}
+		}
 		st := ServerGoroutines()
 		if st.Active == 0 && st.Parked == 0 {
 			if st.Blocked > 0 {
@@ -503,4 +509,85 @@ func CodeOf(d protocol.Diagnostic) string {
 		return ""
 	}
 	return fmt.Sprint(d.Code)
+}
+
+// ---------------------------------------------------------------------------
+// Guarded calls: a notification or request is issued on its own goroutine so that the controller
+// notices (from goroutine states, not from timing) when the handler is blocked by background
+// work that is parked at a gate.
+
+func sessionCall(fn func(), done chan struct{}) {
+	fn()
+	close(done)
+}
+
+func sessionCallState() string {
+	buf := make([]byte, 1<<16)
+	for {
+		n := runtime.Stack(buf, true)
+		if n < len(buf) {
+			buf = buf[:n]
+			break
+		}
+		buf = make([]byte, 2*len(buf))
+	}
+	for _, blk := range strings.Split(string(buf), "\n\n") {
+		if !strings.Contains(blk, "zzverif.sessionCall") {
+			continue
+		}
+		head := blk
+		if i := strings.IndexByte(blk, '\n'); i >= 0 {
+			head = blk[:i]
+		}
+		if i := strings.IndexByte(head, '['); i >= 0 {
+			if j := strings.IndexByte(head[i:], ']'); j >= 0 {
+				st := head[i+1 : i+j]
+				if k := strings.IndexByte(st, ','); k >= 0 {
+					st = st[:k]
+				}
+				if st == "semacquire" && !strings.Contains(blk, "sync.runtime_Sem") {
+					return "running"
+				}
+				return st + "|" + blk
+			}
+		}
+	}
+	return ""
+}
+
+// Do runs fn (a call into the server) and reports whether it is blocked while no server
+// goroutine can make progress. When blocked, the returned channel is closed once fn returns.
+func (s *Session) Do(fn func()) (blocked bool, dump string, done chan struct{}) {
+	done = make(chan struct{})
+	go sessionCall(fn, done)
+	deadline := time.Now().Add(60 * time.Second)
+	for spins := 0; ; spins++ {
+		select {
+		case <-done:
+			return false, "", done
+		default:
+		}
+		if spins < 200 {
+			runtime.Gosched()
+			continue
+		}
+		time.Sleep(50 * time.Microsecond)
+		if spins%40 == 0 {
+			st := sessionCallState()
+			if i := strings.IndexByte(st, '|'); i > 0 && isBlockedState(st[:i]) {
+				if g := ServerGoroutines(); g.Active == 0 {
+					// re-check: still not done and still blocked
+					select {
+					case <-done:
+						return false, "", done
+					default:
+					}
+					return true, st[i+1:], done
+				}
+			}
+			if time.Now().After(deadline) {
+				return true, "watchdog", done
+			}
+		}
+	}
 }
